@@ -4,9 +4,11 @@ pub mod c01;
 pub mod c02;
 pub mod c03;
 pub mod c04;
+pub mod c05;
+pub mod c05w;
 pub mod c06;
 
-pub const ALL: &[&str] = &["C01", "C02", "C03", "C04", "C06"];
+pub const ALL: &[&str] = &["C01", "C02", "C03", "C04", "C05", "C06"];
 
 /// replay: Some(path) -> re-run the stored case (its "part" field selects the part)
 pub fn dispatch(prop: &str, tier: Tier, seed: u64, replay: Option<&str>) -> Option<Vec<PartReport>> {
@@ -17,6 +19,7 @@ pub fn dispatch(prop: &str, tier: Tier, seed: u64, replay: Option<&str>) -> Opti
         "C02" => c02::check(tier, seed, r),
         "C03" => c03::check(tier, seed, r),
         "C04" => c04::check(tier, seed, r),
+        "C05" => c05::check(tier, seed, r),
         "C06" => c06::check(tier, seed, r),
         _ => return None,
     })
